@@ -107,6 +107,7 @@ class _Acc:
         self.samples: list = []
         self.sample_classes: set = set()
         self.rejects: dict[str, int] = {}
+        self.reject_examples: dict[str, Any] = {}
         self.outside: dict[str, int] = {}
         self.known_hits: dict[str, int] = {}
         self.known_examples: dict[str, Any] = {}
@@ -120,6 +121,7 @@ class _Acc:
             nontrivial=sorted(self.nontrivial),
             samples=self.samples,
             rejects=self.rejects,
+            reject_examples=self.reject_examples,
             outside=self.outside,
             known_hits=self.known_hits,
             known_examples=self.known_examples,
@@ -138,6 +140,8 @@ def run_one(sub: Sub, recipe, acc: _Acc, known: dict, raise_unknown=True):
         info = sub.prop(recipe)
     except Reject as e:
         _bump(acc.rejects, str(e)[:120])
+        if len(acc.reject_examples) < 6 and str(e)[:120] not in acc.reject_examples:
+            acc.reject_examples[str(e)[:120]] = recipe
         acc.evaluations += 1
         return "reject"
     except Outside as e:
@@ -261,7 +265,7 @@ def _worker(task):
         return _shard_exhaustive(*task[1:])
     except BaseException as e:  # pragma: no cover
         return dict(error="".join(traceback.format_exception(type(e), e, e.__traceback__))[-6000:], sub=task[2], seed=0,
-                    evaluations=0, cases=0, classes={}, nontrivial=[], samples=[], rejects={}, outside={},
+                    evaluations=0, cases=0, classes={}, nontrivial=[], samples=[], rejects={}, reject_examples={}, outside={},
                     known_hits={}, known_examples={}, violation=None)
 
 
@@ -431,6 +435,9 @@ def main(mod_name: str, argv=None):
             _bump(e["classes"], k, v)
         for k, v in r["rejects"].items():
             _bump(e["rejects"], k, v)
+        for k, v in r.get("reject_examples", {}).items():
+            if len(e.setdefault("reject_examples", {})) < 4:
+                e["reject_examples"].setdefault(k, v)
         for k, v in r["outside"].items():
             _bump(e["outside"], k, v)
         for k, v in r["known_hits"].items():
